@@ -238,6 +238,9 @@ func (r *Report) finish(id string, cfg *PropCfg, writeEvidence bool) int {
 	for f := range r.Engine.safetyOff {
 		tb = append(tb, "PARTIAL correctness only (safety=off): run-time panics of "+f+" are outside its contract - the postcondition speaks about normal returns; the goroutine that runs it recovers (C08's structural obligation)")
 	}
+	for rb := range r.Engine.rebound {
+		tb = append(tb, "NOTE: "+rb)
+	}
 	for bl := range r.Engine.boundedLoops {
 		tb = append(tb, "BOUNDED loop (not a proof beyond the bound): "+bl)
 	}
